@@ -220,6 +220,24 @@ impl Expr {
         }
     }
 
+    /// Whether an assignable expression reaches into a module (`m.count`, `(m.list)[0]`, `m.object.field`):
+    /// what a module exports is written by the module alone, whatever name the module is reached by.
+    fn writes_through_module(&self) -> bool {
+        match self {
+            Expr::Value(Value::MathExpr(inner)) => inner.writes_through_module(),
+            Expr::Index { lhs_raw, .. } => lhs_raw.writes_through_module(),
+            Expr::DotLookup { lhs, dot_chain, .. } => {
+                dot_chain.goes_through_module() || lhs.writes_through_module()
+            }
+            Expr::UnaryUnwrap { value, .. } => value.writes_through_module(),
+            Expr::NilEval { primary, fallback } => {
+                primary.writes_through_module()
+                    || matches!(fallback, Value::MathExpr(inner) if inner.writes_through_module())
+            }
+            _ => false,
+        }
+    }
+
     pub(crate) fn validate(
         &self,
         flags: &TypecheckFlags<impl Deref<Target = ClassType> + Debug>,
@@ -264,6 +282,12 @@ impl Expr {
                                     "cannot reassign using {op} through {}, which is const",
                                     root.name()
                                 )
+                            }
+
+                            // nor through a module, even when it is reached by a name that is not
+                            // const (`m = lib; m.count += 1`)
+                            if lhs.writes_through_module() {
+                                bail!("cannot reassign using {op} through a module: what a module exports is assigned by the module alone")
                             }
 
                             // a `str` has no element that could be updated in place
